@@ -1,13 +1,12 @@
-\* M (quick, flat): every struct / packed struct / union of <= 3 fields over one type per size class
-\* (1, 2, 4, 8, pointer, byte string), scalars and arrays of 3, both pointer sizes:
-\* layout invariants, |Pack| = SizeOf, Unpack(Pack(v)) = v, Pack(Unpack(b)) = b
+\* M (thorough, exhaustive, flat): <= 4 members over one type per size class and a byte string, scalars and arrays of 3, both pointer sizes
 CONSTANTS
   RawT = {"B", "h", "I", "q", "P", "s"}
   ArrN = {3}
+  NestN = {3}
   Ords = {""}
   DefOrds = {""}
   DefKinds = {"struct", "packed", "union"}
-  MaxF = 3
+  MaxF = 4
   MaxIF = 0
   MinF = 1
   MaxDepth = 0
